@@ -24,7 +24,7 @@ Clauses of the statement and their theorems:
                                     ravel_multi_index_modes, unravel_blocks
   coarsen                           coarsen_den, aligned_coarsen_chunks_spec, aligned_coarsen_chunks_fixpoint,
                                     coarsen_any_chunking, coarsen_rejects, coarsen_declared_chunks
-  compress (extract)                compress_den, compress_rejects, extract_den
+  compress (extract)                compress_den, compress_rejects, compress_np_den, extract_den
 -/
 namespace Dask.C27
 open Dask.Chunks Dask.Counting
@@ -184,15 +184,22 @@ example : bincountAggW [bincountW [1, 1] [2, 3] 0, bincountW [0, 3] [-1, 4] 0] =
 
 /-! ### coarsen on ANY chunking: `aligned_coarsen_chunks` + block-by-block `chunk.coarsen` -/
 
-/-- **aligned_coarsen_chunks_spec**: for every chunk tuple (zero-length chunks allowed) and every positive factor
-    `aligned_coarsen_chunks` returns (never raises) multiples of the factor followed by the remainder
-    `total % factor` when that is non-zero, with the same total; every chunk is positive, except that an axis of
-    length zero keeps the single chunk `(0,)`. -/
-theorem aligned_coarsen_chunks_spec (cs : List Nat) (m : Nat) (hm : 0 < m) :
-    ∃ body, alignedCoarsenChunks cs m = some (body ++ (if sum cs % m = 0 then [] else [sum cs % m]))
+/-- **aligned_coarsen_chunks_spec**: for every chunk tuple (zero-length chunks allowed), every positive factor and EVERY
+    tie-breaking of the argsort (`order`: any list of in-range indices that is long enough — in particular any
+    permutation of the chunk indices) `aligned_coarsen_chunks` returns (never raises) multiples of the factor followed
+    by the remainder `total % factor` when that is non-zero, with the same total; every chunk is positive, except that
+    an axis of length zero keeps the single chunk `(0,)`. -/
+theorem aligned_coarsen_chunks_spec (order cs : List Nat) (m : Nat) (hm : 0 < m) (hv : ValidOrder order cs m) :
+    ∃ body, alignedCoarsenChunksWith order cs m = some (body ++ (if sum cs % m = 0 then [] else [sum cs % m]))
       ∧ (∀ c ∈ body, m ∣ c) ∧ sum body + sum cs % m = sum cs
       ∧ ((sum cs ≠ 0 ∧ ∀ c ∈ body, 0 < c) ∨ (sum cs = 0 ∧ body = [0])) :=
-  aligned_spec cs m hm
+  aligned_spec order cs m hm hv
+
+/-- **argsort_order_valid**: non-vacuity of `ValidOrder` — the stable argsort of the model and every permutation of the
+    chunk indices (whatever `np.argsort` does with ties) satisfy it. -/
+theorem argsort_order_valid (cs : List Nat) (m : Nat) (hm : 0 < m) :
+    ValidOrder (modificationOrder m cs) cs m ∧ ∀ order, order.Perm (List.range cs.length) → ValidOrder order cs m :=
+  ⟨modificationOrder_valid cs m hm, fun order hp => perm_validOrder order cs m hm hp⟩
 
 example : alignedCoarsenChunks [1, 2, 3] 4 = some [4, 2] := by decide
 example : alignedCoarsenChunks [1, 20, 3, 4] 4 = some [4, 20, 4] := by decide
@@ -200,29 +207,31 @@ example : alignedCoarsenChunks [20, 10, 15, 23, 24] 10 = some [20, 10, 20, 20, 2
 /-- the largest chunk is a multiple of the factor, two others are not: they are still re-aligned -/
 example : alignedCoarsenChunks [4, 1, 3] 4 = some [4, 4] := by decide
 example : alignedCoarsenChunks [0, 0] 3 = some [0] := by decide
+/-- two tie-breakings of the equal sizes 3, 3: both results satisfy the specification -/
+example : alignedCoarsenChunksWith [0, 1] [3, 3] 2 = some [4, 2] ∧ alignedCoarsenChunksWith [1, 0] [3, 3] 2 = some [2, 4] := by decide
 
 /-- **aligned_coarsen_chunks_fixpoint**: chunks that are positive multiples of the factor are left alone
     (`da.coarsen` then does not rechunk). -/
-theorem aligned_coarsen_chunks_fixpoint (cs : List Nat) (m : Nat) (hm : 0 < m) (hne : cs ≠ [])
-    (h : ∀ c ∈ cs, 0 < c ∧ m ∣ c) : alignedCoarsenChunks cs m = some cs := aligned_fixpoint cs m hm hne h
+theorem aligned_coarsen_chunks_fixpoint (order cs : List Nat) (m : Nat) (hm : 0 < m) (hne : cs ≠ [])
+    (h : ∀ c ∈ cs, 0 < c ∧ m ∣ c) : alignedCoarsenChunksWith order cs m = some cs := aligned_fixpoint order cs m hm hne h
 
 example : ([4, 8, 4] : List Nat) ≠ [] ∧ ∀ c ∈ [4, 8, 4], 0 < c ∧ 4 ∣ c := by decide
 
 /-- **coarsen_any_chunking**: `da.coarsen` along an axis — guard, `aligned_coarsen_chunks`, rechunk, `chunk.coarsen`
-    block by block — returns, for EVERY chunking `cs` of the axis (irregular, misaligned, zero-length chunks), blocks whose
-    concatenation is `chunk.coarsen` of the whole axis, whenever NumPy's `chunk.coarsen` itself is defined
-    (`trim_excess` or the length is a multiple of the factor). -/
-theorem coarsen_any_chunking {α β} (f : List α → β) (trim : Bool) (d : Nat) (hd : 0 < d) (cs : List Nat) (xs : List α)
-    (hlen : xs.length = sum cs) (hok : trim = true ∨ sum cs % d = 0) :
-    ∃ blocks, daCoarsen f trim d cs xs = some blocks ∧ blocks.flatten = coarsenBlock f d xs := by
-  obtain ⟨body, h1, h2, h3, _⟩ := aligned_spec cs d hd
+    block by block — returns, for EVERY chunking `cs` of the axis (irregular, misaligned, zero-length chunks) and every
+    tie-breaking `order`, blocks whose concatenation is `chunk.coarsen` of the whole axis, whenever NumPy's
+    `chunk.coarsen` itself is defined (`trim_excess` or the length is a multiple of the factor). -/
+theorem coarsen_any_chunking {α β} (f : List α → β) (trim : Bool) (d : Nat) (hd : 0 < d) (order cs : List Nat) (xs : List α)
+    (hv : ValidOrder order cs d) (hlen : xs.length = sum cs) (hok : trim = true ∨ sum cs % d = 0) :
+    ∃ blocks, daCoarsenWith order f trim d cs xs = some blocks ∧ blocks.flatten = coarsenBlock f d xs := by
+  obtain ⟨body, h1, h2, h3, _⟩ := aligned_spec order cs d hd hv
   have hsum : sum (body ++ (if sum cs % d = 0 then [] else [sum cs % d])) = sum cs := by
     rw [sum_append]; split <;> simp_all [sum]
   have hx : xs.length = sum (body ++ (if sum cs % d = 0 then [] else [sum cs % d])) := by rw [hsum, hlen]
   have hL := splitBy_lengths _ xs hx
   have hF := splitBy_flatten' _ xs hx
   refine ⟨(splitBy (body ++ (if sum cs % d = 0 then [] else [sum cs % d])) xs).map (coarsenBlock f d), ?_, ?_⟩
-  · unfold daCoarsen
+  · unfold daCoarsenWith
     rw [if_neg (by omega)]
     have hg : (!trim && sum cs % d != 0) = false := by
       rcases hok with h | h <;> simp [h]
@@ -249,9 +258,9 @@ example : daCoarsen Chunks.sum true 4 [1, 2] [1, 2, 3] = some [[]] := by decide
 
 /-- **coarsen_rejects**: without `trim_excess` a length that is not a multiple of the factor is a ValueError —
     exactly when `chunk.coarsen` on the whole array raises. -/
-theorem coarsen_rejects {α β} (f : List α → β) (d : Nat) (cs : List Nat) (xs : List α) (hr : sum cs % d ≠ 0) :
-    daCoarsen f false d cs xs = none := by
-  unfold daCoarsen
+theorem coarsen_rejects {α β} (f : List α → β) (d : Nat) (order cs : List Nat) (xs : List α) (hr : sum cs % d ≠ 0) :
+    daCoarsenWith order f false d cs xs = none := by
+  unfold daCoarsenWith
   split
   · rfl
   · simp [hr]
@@ -262,12 +271,12 @@ example : daCoarsen Chunks.sum false 4 [4, 1, 3, 2] [1, 2, 3, 4, 5, 6, 7, 8, 9, 
     block order — the only block the declaration may leave out is a trailing zero-length one (the trimmed remainder),
     so block `i` of the declaration is block `i` of the graph; they are positive (or the single `(0,)` of an axis that
     loses everything) and add up to NumPy's result length `n // d`. -/
-theorem coarsen_declared_chunks (d : Nat) (hd : 0 < d) (cs : List Nat) :
-    ∃ aligned z, alignedCoarsenChunks cs d = some aligned ∧ (z = [] ∨ z = [0])
+theorem coarsen_declared_chunks (d : Nat) (hd : 0 < d) (order cs : List Nat) (hv : ValidOrder order cs d) :
+    ∃ aligned z, alignedCoarsenChunksWith order cs d = some aligned ∧ (z = [] ∨ z = [0])
       ∧ aligned.map (· / d) = coarsenDeclaredChunks d aligned ++ z
       ∧ (coarsenDeclaredChunks d aligned = [0] ∨ ∀ c ∈ coarsenDeclaredChunks d aligned, 0 < c)
       ∧ sum (coarsenDeclaredChunks d aligned) = sum cs / d := by
-  obtain ⟨body, h1, h2, h3, h4⟩ := aligned_spec cs d hd
+  obtain ⟨body, h1, h2, h3, h4⟩ := aligned_spec order cs d hd hv
   have hrd : (sum cs % d) / d = 0 := Nat.div_eq_of_lt (Nat.mod_lt _ hd)
   have hsumdiv : sum (body.map (· / d)) = sum cs / d := by
     have e := sum_map_div d hd body h2
@@ -536,6 +545,18 @@ example : compressChunked [1, 0, 2] [true, false, true] [10, 20, 30, 40] = some 
 theorem compress_rejects {α} (cs : List Nat) (cond : List Bool) (xs : List α) (h : xs.length < cond.length) :
     compressChunked cs cond xs = none ∧ compress cond xs = none := by
   unfold compressChunked compress; simp [h]
+
+/-- **compress_np_den**: a NumPy condition may be longer than the axis: surplus entries that are all False are
+    ignored (result = selection by the condition), a True surplus entry is an IndexError — NumPy's rule. -/
+theorem compress_np_den {α} (cond : List Bool) (xs : List α) :
+    compressNp cond xs = if (cond.drop xs.length).any id then none else some (selectBy cond xs) := by
+  unfold compressNp
+  split
+  · rfl
+  · rw [selectBy_take, selectBy_take_cond]
+
+example : compressNp [true, false, true, false, false] [1, 2, 3] = some [1, 3] := by decide
+example : compressNp [true, false, true, false, true] [1, 2, 3] = none := by decide
 
 /-- **extract_den**: `da.extract(cond, arr)` = `compress` of the flattenings = selection by the flattened condition -/
 theorem extract_den {α} (condFlat : List Bool) (arrFlat : List α) (h : condFlat.length = arrFlat.length) :
